@@ -203,6 +203,8 @@ class MetaArray(type):
             if "_order" not in data:
                 data["_order"] = "C"
             _shape = data["_shape"]
+            # "C" / "F" depend on the number of dimensions only
+            data["_order"] = mk_order(data["_order"], _shape)
             dshape = []  # find dynamic shapes
             for ii, d in enumerate(_shape):
                 if d is None:
@@ -218,7 +220,6 @@ class MetaArray(type):
                     data["_strides"] = (static_size,)
             else:
                 data["_is_static_shape"] = True
-                data["_order"] = mk_order(data["_order"], _shape)
                 data["_strides"] = get_strides(
                     _shape, data["_order"], static_size
                 )
